@@ -181,7 +181,12 @@ func (x *Exec) matchSites(root, fr *Frame, st *State, key, full string, args []V
 					e.siteOptional = !s.Must
 					e.cur = fr
 				}, pos)
-				x.obls[len(x.obls)-1].Watch = watches
+				last := x.obls[len(x.obls)-1]
+				last.Watch = watches
+				// checked, then assumed: a site assertion is available as a lemma to what follows
+				if last.GenErr == "" && last.Kind == "site" && last.Goal != "" {
+					x.smt.assume(Implies(st.pc, last.Goal))
+				}
 			}
 			var cprops []string
 			for _, a := range s.Asserts {
